@@ -40,7 +40,9 @@ Init == over = 0 /\ k = 1 /\ connected = FALSE /\ connTarget = "-" /\ tdead = FA
 Choice(tc, d, su, tb) == [tclass |-> tc, decision |-> d, setup |-> su, tbeh |-> tb, gt |-> "std"]
 
 (* the target's part: what the principal reads back for a forwarded intent, and what the target keeps *)
-TargetAnswer(tb) == IF tb = "confirm" THEN "confirm" ELSE "deny"
+TargetAnswer(tb) == IF tb \in {"confirm", "slowconfirm"} THEN "confirm" ELSE "deny"
+(* "slowconfirm": the target accepts and stores, but its answer takes seconds (a slow or proxied path); the protocol *)
+(* has no timeout: the principal waits and relays it.  Only chosen for the first request (it costs real time).      *)
 
 Forward(tc, d, su, tb, conn1, ct1, cb1) ==
     \* forward request k over the target connection (dead after a close)
@@ -50,7 +52,7 @@ Forward(tc, d, su, tb, conn1, ct1, cb1) ==
        THEN /\ fwd' = fwd /\ stored' = stored /\ tdead' = tdead
             /\ ans' = Append(ans, <<"deny">>)
        ELSE /\ fwd' = Append(fwd, k)
-            /\ stored' = IF tb = "confirm" THEN stored \cup {k} ELSE stored
+            /\ stored' = IF tb \in {"confirm", "slowconfirm"} THEN stored \cup {k} ELSE stored
             /\ tdead' = (tb = "close")
             /\ ans' = Append(ans, <<TargetAnswer(tb)>>)
     /\ k' = k + 1 /\ UNCHANGED over
@@ -90,7 +92,7 @@ Request ==
                        THEN Deny(tc, d, su, FALSE, "-", cb1, IF Variant = "pinned" THEN 2 ELSE 1)
                        ELSE IF su = "postfail"
                        THEN Deny(tc, d, su, FALSE, "-", cb1, 1)
-                       ELSE \E tb \in {"confirm", "deny", "storefail", "garbage", "close"} :
+                       ELSE \E tb \in {"confirm", "deny", "storefail", "garbage", "close"} \cup (IF k = 1 THEN {"slowconfirm"} ELSE {}) :
                               Forward(tc, d, su, tb, TRUE, tc, cb1)
 (* what the delegate sends after the principal has given up is not answered by anybody *)
 Ignored ==
